@@ -4,7 +4,7 @@ import numpy as np
 from .. import gc_harness as G, gc_oracle as O
 from ..explore_choice import explore, Chooser
 from ..runner import crash_violation
-from .c04 import residue_list, supplied_coords
+from .c04 import residue_list, supplied_coords, resid_of
 
 PID = "C03"
 LEVEL = "model_checking"
@@ -37,6 +37,8 @@ def molecule_lists(tier):
                 counts_opts = [(1, 1), (2, 1), (1, 2)]
             for counts in counts_opts:
                 out.append(list(zip(names, counts)))
+    # a molecule whose residue ids restart (two blocks numbered separately)
+    out += [[("DUPB", 1)], [("DUPB", 2)], [("W", 1), ("DUPB", 1)], [("DUPB", 1), ("CH3", 2)]]
     return out
 
 
@@ -110,10 +112,10 @@ def materialise(cfg):
             mi, name, r, resname, names = rl[i]
             if kind == "c":
                 for an in names:
-                    in_atoms.append((r + 1, resname, an))
+                    in_atoms.append((resid_of(sysd, name, r), resname, an))
                     in_coords.append(tuple(atoms[(mi, r, an)]))
             else:
-                in_atoms.append((r + 1, resname, names[0]))
+                in_atoms.append((resid_of(sysd, name, r), resname, names[0]))
                 in_coords.append(tuple(centres[(mi, r)]))
         sysd["input"] = dict(kind=kind, atoms=in_atoms, coords=in_coords, box=box)
         exp_box = tuple(box)
